@@ -503,6 +503,25 @@ def newDMG (ups cores downs : List Seg) : Option DMG :=
     | none => none
     | some g2 => traverseAll .down g2 (ups.length + cores.length) downs
 
+/-- the edges `traverseSegment` adds for one segment (before `AddEdge`'s overwriting) -/
+def segTuples (kind : Kind) (is : Nat × Seg) : List GEdge :=
+  match lastIA is.2, firstIA is.2 with
+  | some l, some f =>
+    if kind = .core then [⟨vIA l, vIA f, is.1, ⟨is.2, .core, 0, 0⟩⟩]
+    else (indexedFrom 0 is.2.ents).reverse.flatMap (entryTuples is.2 kind is.1 l)
+  | _, _ => []
+
+/-- all edges handed to `AddEdge` by `newDMG`, in order -/
+def allTuples (ups cores downs : List Seg) : List GEdge :=
+  (indexedFrom 0 ups).flatMap (segTuples .up) ++
+  (indexedFrom ups.length cores).flatMap (segTuples .core) ++
+  (indexedFrom (ups.length + cores.length) downs).flatMap (segTuples .down)
+
+/-- no two edges handed to `AddEdge` have the same (source, target, segment) key -/
+def NoCollision (l : DMG) : Prop := l.Pairwise fun a b => a.sameKey b = false
+
+instance (l : DMG) : Decidable (NoCollision l) := by unfold NoCollision; infer_instance
+
 /-- `validNextSeg` -/
 def validNextSeg (cur : Option Kind) (next : Kind) : Bool :=
   match cur with
